@@ -145,6 +145,10 @@ class RunTest:
         if self.exception_caught == self._run_user(self.case._run_setup, self.result):
             # Don't run the test method if we failed getting here.
             self._run_cleanups(self.result)
+            # An expectation that failed in setUp (or in one of the cleanups
+            # just run) still has to fail the test.
+            if getattr(self.case, "force_failure", None):
+                self._run_user(_raise_force_fail_error)
             return
         # Run everything from here on in. If any of the methods raise an
         # exception we'll have failed.
